@@ -477,9 +477,40 @@ theorem gopd_undefined_eq_spec (compat : CompatFn) (tvp : Desc → VProp) (prop 
         simp [mechGopd, gopdCheckWith, specGopd, TrapDesc.toSpec, propToValueProp, TProp.toCur, VProp.toCur, Cur.configurable]
   · simp [mechGopd, gopdCheckWith, specGopd, TrapDesc.toSpec]
 
+/-- §10.5.5 [[GetOwnProperty]] (repaired compatibility function and toValueProp): for every existing property, every
+extensibility and every trap result, the mechanism's outcome — TypeError, undefined, or the reported property — is
+the spec's -/
+theorem gopd_eq_spec (prop : TProp) (ext : Bool) (trap : TrapDesc)
+    (ht : ∀ d, trap = .obj d → d.Valid) (hp : prop.WF) :
+    (match mechGopd isCompatibleFixed toValuePropFixed prop ext trap with
+      | .ok r => Out.ok r.toCur
+      | .typeError => .typeError) = specGopd prop.toCur ext trap.toSpec := by
+  cases trap with
+  | undef => exact gopd_undefined_eq_spec isCompatibleFixed toValuePropFixed prop ext .undef (Or.inl rfl)
+  | nonObject => exact gopd_undefined_eq_spec isCompatibleFixed toValuePropFixed prop ext .nonObject (Or.inr rfl)
+  | obj d =>
+    have hd := ht d rfl
+    have hwf : descWellFormed d = true := by
+      obtain ⟨_, _, hx⟩ := hd
+      simp only [descWellFormed]
+      cases hg : d.getter <;> cases hs : d.setter <;> cases hv : d.value <;> cases hw : d.writable <;>
+        simp_all
+    have e1 := complete_toPD d hd
+    have e2 := gopdTail_toCur d hd
+    rw [← e1] at e2
+    simp only [mechGopd, hwf, Bool.not_true, Bool.false_eq_true, if_false, specGopd, TrapDesc.toSpec, ← e1]
+    rw [gopdCheckWith_obj]
+    rw [isCompatibleFixed_eq_spec ext d.complete (propToValueProp prop) (complete_valid d hd)
+      (fun p hp' => propToValueProp_wf hp hp')]
+    simp only [TProp.toCur]
+    have hc : (d.complete.toPD.configurable == some false) = (d.complete.configurable == .fals) := flag_toOpt_false _
+    have hw : (d.complete.toPD.writable == some false) = (d.complete.writable == .fals) := flag_toOpt_false _
+    rw [hc, hw]
+    exact gopd_core d.complete (gopdTail toValuePropFixed d) (propToValueProp prop) e2
+      (specIsCompatible ext d.complete.toPD ((propToValueProp prop).map VProp.toCur)) (fun p hp' => propToValueProp_wf hp hp')
+
 /-- §10.5.5, completeness for the honest answer (any existing property, any extensibility): accepted, and the
-reported property is the target's.  (Soundness of the descriptor branch rests on `isCompatible_complete_eq_spec`
-and on the exhaustive lattice; a single ∀-theorem for that branch is not proved here.) -/
+reported property is the target's (corollary-sized; used by `layer_getOwn`). -/
 theorem gopd_honest_accepted (c : Cur) (ext : Bool) :
     ∃ r, gopdCheckWith isCompatibleFixed toValuePropFixed c.toTProp ext (.obj c.toDesc) = .ok r ∧ r.toCur = some c :=
   gopd_honest c ext
